@@ -19,16 +19,8 @@ CLAUSE = {
     'index': 'an accepted insertRule/add returns the index at which the rule now stands',
     'reparse': 'serialising and reparsing the edited sheet keeps every rule (same tree of rule types)',
     'outcome': 'an edit either returns or raises a DOM exception',
+    'list': 'insertRule(CSSRuleList) inserts all rules or none: a refused list leaves the rule list as it was',
 }
-
-F_VARS = 'C09-add-variables-scan'
-F_STALE = 'C09-insert-stale-index'
-F_CHARSET = 'C09-add-charset-adopts'
-F_MEDIAVARS = 'C09-media-accepts-variables'
-F_PAGE = 'C09-page-accepts-nonmargin'
-F_TEXT = 'C09-text-replace-keeps-parent'
-F_DEPTH2 = 'C09-parentstylesheet-depth2'
-F_INORDER = 'C09-inorder-index-not-ignored'
 
 
 def items_of(st):
@@ -97,7 +89,7 @@ class Oracle:
         pre = {'top': top, 'topids': [id(r) for r in top], 'kinds': [r.typeString for r in top], 'mode': mode,
                'live': set(id(r) for _, r, _ in st.walk())}
         t = op[0]
-        if t in ('nins', 'ndel', 'ntext'):
+        if t in ('nins', 'ndel', 'ntext', 'ninsl'):
             try:
                 c = st.at(op[1])
                 pre['cont'] = c
@@ -131,45 +123,17 @@ class Oracle:
         st.explained = {k: v for k, v in st.explained.items() if k in cur}
         st.items = cur
         self.check_index(st, op, out, pre, ops, raising)
+        if op[0] in ('insl', 'ninsl') and out.startswith('ERR'):
+            before = pre['topids'] if op[0] == 'insl' else pre.get('contkids')
+            rules = st.sheet.cssRules if op[0] == 'insl' else (pre['cont'].cssRules if pre.get('cont') is not None else None)
+            if before is not None and rules is not None and [id(r) for r in rules] != before:
+                ctx.violate(CLAUSE['list'], self.witness(ops, raising),
+                            '%s, but the list changed to %s' % (out, [r.typeString for r in rules]))
 
     # -- region predicates of the known findings ------------------------------------------------
     def explain(self, k, st, op, out, pre):
-        t = op[0]
-        clause = k[0]
-        if clause in ('order', 'charset'):
-            if t == 'insord' and op[1].kind in ('namespace', 'variables') and in_fallback_region(pre['kinds'], op[1].kind) \
-                    and op[2] != len(pre['kinds']):
-                return F_INORDER
-            if clause == 'charset':
-                return None
-            if t in ('add', 'insord') and op[1].kind == 'variables' and in_vars_region(pre['kinds']):
-                # the new @variables rule is the first member of the inverted pair
-                a = [r for r in st.sheet.cssRules if id(r) == k[1]]
-                if a and a[0].type == a[0].VARIABLES_RULE and id(a[0]) not in pre['live']:
-                    return F_VARS
-            return None
-        if clause == 'nested':
-            if t == 'nins' and pre.get('cont') is not None and id(pre['cont']) == k[1] and k[2] not in pre['live']:
-                c = pre['cont']
-                if c.type == c.MEDIA_RULE and op[2].kind == 'variables':
-                    return F_MEDIAVARS
-                if c.type == c.PAGE_RULE and op[2].kind in ('style', 'variables', 'comment', 'unknown'):
-                    return F_PAGE
-            return None
-        if clause == 'dpss':
-            return F_DEPTH2 if k[2] >= 2 else None
-        if clause == 'link':
-            return None
-        if clause == 'gone':
-            if (k[2] == 'parentStyleSheet' and t in ('add', 'insord') and op[1].kind == 'charset' and not op[-1]
-                    and pre['kinds'][:1] == ['CHARSET_RULE'] and k[1] == id(st.last_arg)):
-                return F_CHARSET
-            if k[2] == 'parentStyleSheet' and t == 'text' and out == 'NONE' and k[1] in pre['topids']:
-                return F_TEXT
-            if (t == 'ntext' and out == 'NONE' and pre.get('cont') is not None and k[1] in pre['contkids']):
-                # old children keep _parentRule (and through it report the container's sheet)
-                return F_TEXT
-            return None
+        """all findings this check had listed are fixed in the code (known/C09.json, status "fixed"): no new
+        violation item is attributed to a finding any more"""
         return None
 
     def check_index(self, st, op, out, pre, ops, raising):
@@ -184,11 +148,6 @@ class Oracle:
         ok = i < len(rules) and (rules[i] is st.last_arg if not via else id(rules[i]) not in pre['live'])
         if not ok:
             f = None
-            if t in ('ins', 'add', 'insord') and spec.kind == 'namespace':
-                # region: an earlier @namespace rule (index < i) was removed by the clean-up of this very call
-                now = set(id(r) for r in st.sheet.cssRules)
-                if any(x not in now for x in pre['topids'][:i]):
-                    f = F_STALE
             self.ctx.violate(CLAUSE['index'], self.witness(ops, raising),
                              'returned %d, list is %s' % (i, [r.typeString for r in rules]), known=f)
 
@@ -272,36 +231,6 @@ class Oracle:
                                  known=fs[0] if fs else None)
             # else: already reported by the structural clause that broke
         return st.kinds_tree(again)
-
-
-def in_vars_region(kinds):
-    """region of C09-add-variables-scan: no @variables rule yet, and an @import or @namespace rule stands after the
-    first comment / unknown rule (or after the first style/@media/@page/@font-face rule)"""
-    if 'VARIABLES_RULE' in kinds:
-        return False
-    stop = ('MEDIA_RULE', 'PAGE_RULE', 'STYLE_RULE', 'FONT_FACE_RULE', 'UNKNOWN_RULE', 'COMMENT')
-    for i, k in enumerate(kinds):
-        if k in stop:
-            return any(x in ('IMPORT_RULE', 'NAMESPACE_RULE', 'CHARSET_RULE') for x in kinds[i + 1:])
-    return False
-
-
-def in_fallback_region(kinds, kind):
-    """region of C09-inorder-index-not-ignored: ordered insert of @namespace / @variables when no rule of that kind
-    exists and no later rule fixes the insertion point — the caller's index is used as it is"""
-    if kind == 'namespace':
-        if 'NAMESPACE_RULE' in kinds:
-            return False
-        start = 0
-        for i, k in enumerate(kinds):
-            if k in ('CHARSET_RULE', 'IMPORT_RULE'):
-                start = i + 1
-        stop = ('VARIABLES_RULE', 'MEDIA_RULE', 'PAGE_RULE', 'STYLE_RULE', 'FONT_FACE_RULE', 'UNKNOWN_RULE', 'COMMENT')
-        return not any(k in stop for k in kinds[start:])
-    if 'VARIABLES_RULE' in kinds:
-        return False
-    stop = ('MEDIA_RULE', 'PAGE_RULE', 'STYLE_RULE', 'FONT_FACE_RULE', 'UNKNOWN_RULE', 'COMMENT')
-    return not any(k in stop for k in kinds)
 
 
 def replay_known(env, finding):
